@@ -240,7 +240,15 @@ func visitInstr(fr *frame, instr ssa.Instruction) continuation {
 		fr.env[instr] = fr.get(instr.Tuple).(tuple)[instr.Index]
 
 	case *ssa.Slice:
-		fr.env[instr] = slice(fr.get(instr.X), fr.get(instr.Low), fr.get(instr.High), fr.get(instr.Max))
+		sx := fr.get(instr.X)
+		res := slice(sx, fr.get(instr.Low), fr.get(instr.High), fr.get(instr.Max))
+		if ap, ok := sx.(*value); ok && fr.i.ex != nil && fr.i.ex.track != nil && fr.i.ex.track.fresh[ap] {
+			// slicing an array allocated inside the tracked region: its elements are fresh too
+			if rs, ok := res.([]value); ok {
+				fr.i.ex.noteFreshSlice(rs)
+			}
+		}
+		fr.env[instr] = res
 
 	case *ssa.Return:
 		switch len(instr.Results) {
